@@ -595,7 +595,7 @@ def plan(tier, seed, scale=1.0):
         for resumed in (False, True):
             for buf in ((8192,) if tier == "quick" else (7, 512, 8192)):
                 tasks.append({"kind": "runloop", "recipe": recipe, "resumed": resumed, "buffer": buf, "seed": seed})
-    nseq = int({"quick": 2400, "thorough": 400000}[tier] * scale)
+    nseq = int({"quick": 2400, "thorough": 200000}[tier] * scale)
     per = 100 if tier == "quick" else 1000
     for lo in range(0, nseq, per):
         tasks.append({"kind": "seq", "seed": seed, "lo": lo, "hi": min(nseq, lo + per)})
